@@ -278,6 +278,12 @@ Proof.
   destruct H as (H1 & H2 & _). split; assumption.
 Qed.
 
+(* ---- the same float format: `x.to_sample::<f32>()` on an f32 (f64 on an f64) dispatches to the blanket
+   `impl<S> FromSample<S> for S`: the value itself, bit for bit (a NaN stays the NaN, -0.0 stays -0.0) ---- *)
+Lemma float_same_format (m : mode) :
+  (forall x : F32.t, to_sample_f32_f32 m x = Ok x) /\ (forall x : F64.t, to_sample_f64_f64 m x = Ok x).
+Proof. split; reflexivity. Qed.
+
 (* ---- a decidable sufficient test for the documented domain (used by the non-vacuity examples) ---- *)
 Definition dom_b {prec emax : Z} (f : BinarySingleNaN.binary_float prec emax) : bool :=
   match f with
